@@ -5,7 +5,11 @@ from typing import Any, Callable, Dict, List, Type
 from spec_classes.errors import FrozenInstanceError
 from spec_classes.methods.base import AttrMethodDescriptor
 from spec_classes.types import MISSING, Attr
-from spec_classes.utils.mutation import mutate_value, protect_via_deepcopy
+from spec_classes.utils.mutation import (
+    mutate_value,
+    protect_via_deepcopy,
+    resolve_attr_spec,
+)
 from spec_classes.utils.type_checking import (
     check_type,
     type_instantiate,
@@ -56,7 +60,7 @@ class CollectionAttrMutator(metaclass=ABCMeta):
         collection: Any = MISSING_COLLECTION,
         inplace: bool = True,
     ):
-        self.attr_spec = attr_spec
+        self.attr_spec = resolve_attr_spec(attr_spec, instance)
         self.instance = instance
 
         if collection is MISSING_COLLECTION:
